@@ -573,6 +573,29 @@ func (f *frame) mergeState(cond *Term, a, b State) State {
 	for _, k := range sortedKeys(a) {
 		va := a[k]
 		vb, ok := b[k]
+		if isMarker(va) || (ok && isMarker(vb)) {
+			// overwritten on one side before its sort was known: an arbitrary
+			// value on that side
+			switch {
+			case isMarker(va) && (!ok || isMarker(vb)):
+				if !ok {
+					if srt, known := f.c.heapSort[k]; known {
+						out[k] = Ite(cond, f.c.fresh(k, srt), f.c.heapVar(b, k, srt))
+						continue
+					}
+				}
+				if ok {
+					out[k] = joinMarkers(va, vb)
+				} else {
+					out[k] = va
+				}
+				continue
+			case isMarker(va):
+				va = f.c.fresh(k, vb.Sort)
+			default:
+				vb = f.c.fresh(k, va.Sort)
+			}
+		}
 		if !ok {
 			vb = f.c.heapVar(b, k, va.Sort)
 		}
@@ -584,6 +607,10 @@ func (f *frame) mergeState(cond *Term, a, b State) State {
 	}
 	for _, k := range sortedKeys(b) {
 		if _, ok := out[k]; !ok {
+			if isMarker(b[k]) {
+				out[k] = b[k]
+				continue
+			}
 			va := f.c.heapVar(a, k, b[k].Sort)
 			out[k] = Ite(cond, va, b[k])
 		}
